@@ -129,6 +129,13 @@ feature('star-import-then-rebind',
 feature('rebind-then-star-import',
         ['{B1:x1/assign} = 0', 'from m1 import *', 'if _o():', '    {R1:fn1}', '{B2:fn1/assign} = 0', 'if _o():', '    {R2:fn1}'],
         ['x1 = 0; x1__s = {d1}', 'from m1 import *', 'fn1__s = -1', 'if _o():', '    {R1}', 'fn1 = 0; fn1__s = {d2}', 'if _o():', '    {R2}'], c02=False, c03=False)
+# a star import of a module that says what it exports (__all__): listed underscore names are bound, unlisted names are not
+feature('star-import-all-listed',
+        ['from mall import *', '{R1:pub}', '{R2:_listed}', '{R3:fn_all}'],
+        ['from mall import *', 'pub__s = _listed__s = fn_all__s = -1', '{R1}', '{R2}', '{R3}'], c02=False, c03=False)
+feature('star-import-all-unlisted-keeps-earlier-binding',
+        ['{B1:hidden/assign} = 0', 'import m1 as {B2:shadow/import-as}', 'from mall import *', '{R1:hidden}', '{R2:shadow}', 'if _o():', '    {R3:hidden}'],
+        ['hidden = 0; hidden__s = {d1}', 'import m1 as shadow; shadow__s = {d2}', 'from mall import *', '{R1}', '{R2}', 'if _o():', '    {R3}'], c02=True, c03=True)
 feature('walrus-inside-own-assign-value',
         ['{B1:$X/assign} = _id({B2:$X/walrus} := 0, 1)', 'if _o():', '    {R1:$X}', '{R2:$X}'],
         ['$X = _id($X := 0, $X__s := {d2}, 1); $X__s = {d1}', 'if _o():', '    {R1}', '{R2}'], binds='$X', c02=True, c03=True)
@@ -523,7 +530,7 @@ FEATURES['walrus-under-and']['coarse'] = 'conditional-walrus'
 FEATURES['walrus-in-ternary-branch']['coarse'] = 'conditional-walrus'
 
 for _n in ('star-import-project', 'star-import-conditional-names', 'star-import-stdlib', 'star-import-package', 'star-import-chain', 'star-import-chain3',
-           'star-import-then-rebind', 'rebind-then-star-import'):
+           'star-import-then-rebind', 'rebind-then-star-import', 'star-import-all-listed', 'star-import-all-unlisted-keeps-earlier-binding'):
     FEATURES[_n]['toplevel'] = True
 
 
